@@ -1260,6 +1260,20 @@ func genMVT(t *rapid.T) ([]byte, string) {
 		}
 		d = gz(big)
 		how = append(how, "gzip-bomb")
+	case 6: // valid compressed containers: gzip in gzip (2..4 CRC-valid layers) over a highly compressible payload,
+		// concatenated members, huge header fields, stored blocks (rare large class: up to 2 MiB inside; the size ladder of TestEnumLarge goes to 64 MiB)
+		n := rapid.OneOf(rapid.IntRange(1, 1<<16), rapid.IntRange(1<<16, 1<<21)).Draw(t, "gzn")
+		dim := rapid.SampledFrom([]string{"gz2-zeros", "gz3-zeros", "gz4-zeros", "gz2-tile", "gz3-tile", "gz2-badtile", "gz4-badtile"}).Draw(t, "gzdim")
+		switch rapid.IntRange(0, 7).Draw(t, "gzother") {
+		case 0:
+			dim, n = "gz-members", n%4096+1
+		case 1:
+			dim, n = rapid.SampledFrom([]string{"gz-name-len", "gz-comment-len", "gz-stored", "gz-huffman"}).Draw(t, "gzhdr"), n%(1<<16)+1
+		case 2:
+			dim, n = "gz-extra-len", n%65535+1
+		}
+		d = buildGzip(dim, n)
+		how = append(how, "gzip-container")
 	}
 	return clip(d), strings.Join(how, ",")
 }
